@@ -135,6 +135,16 @@ def anchor_report(mod, lines):
 
 
 def run_check(prop, tier, seed):
+    os.environ["TW_VERIF_RUN_ID"] = str(os.getpid())
+    try:
+        return _run_check(prop, tier, seed)
+    finally:
+        if prop in ("C18", "C19"):
+            from mc.env import loaderenv
+            loaderenv.remove_run_scratch()
+
+
+def _run_check(prop, tier, seed):
     t0 = time.time()
     mod = importlib.import_module("checks.%s" % prop.lower())
     known = load_known()
@@ -299,7 +309,13 @@ def main(argv=None):
     sys.path.insert(0, ROOT)
     try:
         if a.replay:
-            return run_replay(a.prop.upper(), a.replay)
+            os.environ["TW_VERIF_RUN_ID"] = str(os.getpid())
+            try:
+                return run_replay(a.prop.upper(), a.replay)
+            finally:
+                if a.prop.upper() in ("C18", "C19"):
+                    from mc.env import loaderenv
+                    loaderenv.remove_run_scratch()
         return run_check(a.prop.upper(), tier, seed)
     except SystemExit:
         raise
